@@ -14,6 +14,14 @@ def verdict(v):
     return None if v is None or v["outcome"] != "ok" else v["valid"]
 
 
+def precheck_may_fire(d):
+    if isinstance(d, dict):
+        return "items" in d or d.get("type") == "array" or any(precheck_may_fire(v) for v in d.values())
+    if isinstance(d, list):
+        return any(precheck_may_fire(v) for v in d)
+    return False
+
+
 def judge(chk, j, stats):
     """property-level oracle on one joined record; returns True when a failure (known or not) was recorded"""
     c = j["case"]
@@ -21,11 +29,19 @@ def judge(chk, j, stats):
     failed = False
     # the one-shot entry point and a validator object give the same verdict
     one = j["oneshot"]
-    if j["go"]["outcome"] == "ok" and one["outcome"] == "ok" and one["nil"] != go:
+    # (AgainstSchema validates at the root path "": with the Swagger-mode options the object validator looks at the path, so a
+    # validator built for another root path is another call)
+    same_call = not (c.get("swagger") and c.get("root"))
+    if same_call and j["go"]["outcome"] == "ok" and one["outcome"] == "ok" and one["nil"] != go:
         chk.violation("AgainstSchema and NewSchemaValidator(...).Validate disagree on the verdict",
                       {"case": c, "validator_valid": go, "oneshot_nil": one["nil"]})
         failed = True
     if c.get("usenumber") or j["d4"] is None or go is None:
+        return failed
+    if c.get("swagger") and precheck_may_fire(c.get("data")):
+        # the Swagger-mode options add two checks of their own on objects that look like schemas (a member "items", or
+        # "type": "array"): by design not draft 4; the L1 tie still compares such cases
+        stats["swagger_mode_precheck"] = stats.get("swagger_mode_precheck", 0) + 1
         return failed
     cls = j["classes"]
     if any(k >= 100 for k in cls):
@@ -83,6 +99,8 @@ def run_cases(chk, binp, cases, pf_ok, pf):
         jj = R.observe(binp, [dict(case)])[0]
         gv = verdict(jj["go"])
         if jj["d4"] is None or gv is None or any(k >= 100 for k in jj["classes"]):
+            return False
+        if case.get("swagger") and precheck_may_fire(case.get("data")):
             return False
         if any(k in FINDING_CLASSES and R.CLASS_NAMES[k] in chk.known for k in jj["classes"]):
             return False
